@@ -196,7 +196,7 @@ fn profile(name: &str) -> P {
             p.first_gated = 35;
             p.p_sleep = 70;
             p.sleeps = vec![2, 4, 6, 8, 10, 20];
-            p.timeouts = vec![2, 2, 4, 6, 10, 20, 50];
+            p.timeouts = vec![2, 2, 4, 6, 10, 20, 50, 2, 4, 6, 10, 20, 1 << 40];
             p.p_long_busy = 2;
             p.caps = vec![Some(1), Some(1), Some(2), Some(4), None];
             p.p_start_err = 3;
@@ -560,7 +560,14 @@ pub fn generate(profile_name: &str, seed: u64) -> Scenario {
                             seen += 1;
                             if seen == k {
                                 let pos = g.r.below(body.steps.len() as u64 + 1) as usize;
-                                body.steps.insert(pos, Step::Panic);
+                                let down: Vec<usize> = (v + 1..n).collect();
+                                if !down.is_empty() && g.r.chance(25) {
+                                    let t = *g.r.pick(&down);
+                                    let uid = g.uid();
+                                    body.steps.insert(pos, Step::JoinAskPanic { target: t, body: Body::plain(uid) });
+                                } else {
+                                    body.steps.insert(pos, Step::Panic);
+                                }
                                 break 'outer;
                             }
                         }
@@ -907,7 +914,66 @@ fn finish(g: &mut G, profile_name: &str, seed: u64, mut actors: Vec<ActorSpec>, 
 }
 
 /// Deadlock profile: ask chains over arbitrary (possibly cyclic) topologies.
+/// "overlap" shape: histories that are acyclic in time although a hook has two asks in flight at once, or dies by a
+/// panic while an ask is in flight; later the former callee asks back. (Concurrent asks inside arbitrary cyclic
+/// topologies are never generated: the graph keeps one edge per caller, so such cycles are documented as undetectable
+/// and would deadlock the workload itself.)
+fn generate_overlap(seed: u64) -> Scenario {
+    let mut r = Rng::new(seed ^ 0x0E71A9);
+    let mut uid = 0u64;
+    let mut nu = || {
+        uid += 1;
+        uid
+    };
+    let plain = |u: u64, ms: u64| Body { uid: u, flags: 0, steps: if ms > 0 { vec![Step::Sleep(ms)] } else { vec![] } };
+    let spec = || ActorSpec {
+        cap: Some(16),
+        start: HookScript::default(),
+        run: vec![],
+        stop: HookScript::default(),
+        run_err_when_handled: None,
+        in_peers: true,
+    };
+    let actors = vec![spec(), spec(), spec()];
+    let d_b = 2 * r.range(0, 3);
+    let d_c = 2 * r.range(3, 8);
+    let to = 2 * r.range(1, 3);
+    let first = if r.chance(60) {
+        Step::JoinAskTo { t1: 1, b1: plain(nu(), d_b), t2: 2, b2: plain(nu(), d_c), ms: to }
+    } else {
+        Step::JoinAskPanic { target: 1, body: plain(nu(), 2 * r.range(1, 4)) }
+    };
+    let m1 = Body { uid: nu(), flags: 0, steps: vec![first] };
+    let back = Body { uid: nu(), flags: 0, steps: vec![Step::Peer { target: 0, kind: if r.chance(70) { SendKind::Ask } else { SendKind::AskTo(2 * r.range(1, 5)) }, mty: MTy::U, body: plain(nu(), 2 * r.below(3)) }] };
+    let clients = vec![
+        ClientSpec {
+            init: vec![Some(0), None, None, None],
+            ops: vec![ClientOp { pre: Pre::Sleep(2 * r.below(3)), op: Op::Send { slot: 0, kind: if r.chance(50) { SendKind::Tell } else { SendKind::Ask }, mty: MTy::U, body: m1 } }],
+            drop_at_end: true,
+        },
+        ClientSpec {
+            init: vec![Some(1), None, None, None],
+            ops: vec![ClientOp { pre: Pre::Sleep(30 + 2 * r.below(10)), op: Op::Send { slot: 0, kind: SendKind::Ask, mty: MTy::U, body: back } }],
+            drop_at_end: true,
+        },
+    ];
+    Scenario {
+        seed,
+        pert: 0,
+        profile: "deadlock".to_string(),
+        actors,
+        clients,
+        ngates: 1,
+        teardown: vec![Teardown::Stop, Teardown::Stop, Teardown::Kill],
+        sample_until: 61,
+        default_cap: 32,
+    }
+}
+
 fn generate_deadlock(seed: u64) -> Scenario {
+    if seed % 10 == 3 {
+        return generate_overlap(seed);
+    }
     let mut r = Rng::new(seed ^ 0xDEAD10C);
     let n = r.range(2, 5) as usize;
     let mut uid = 0u64;
